@@ -80,6 +80,9 @@ class Log:
     def __init__(self):
         self.events = []  # (seq, kind, idx, x, val)
         self.ncalls = {}
+        # calls in which a user function did not receive the extra arguments its owner stated
+        # (`args=` of minimize, "args" of a dict constraint): (kind, idx, received, stated)
+        self.args_mismatch = []
 
     def add(self, kind, idx, x, val):
         self.events.append((len(self.events), kind, idx, np.array(x, dtype=float, copy=True), val))
@@ -171,6 +174,8 @@ def build(spec, log=None, lookup=None, hook=None):
             x = np.asarray(x)
             k = counters["obj"]
             counters["obj"] += 1
+            if tuple(a) != args and len(lg.args_mismatch) < 8:
+                lg.args_mismatch.append(("obj", 0, list(a), list(args)))
             if lookup is not None:
                 v = lookup("obj", 0, k, x)
             else:
@@ -204,6 +209,7 @@ def build(spec, log=None, lookup=None, hook=None):
         cons.append(("lin", L.get("pos", 0), lc))
     b.nl = []
     cfuns = []
+    shared_targets = {int(N_["share_with"]) for N_ in spec.get("nl", []) if N_.get("share_with") is not None}
     for i, N in enumerate(spec.get("nl", [])):
         comps = N["comps"]
         nlargs = tuple(N.get("args", ()))
@@ -215,6 +221,8 @@ def build(spec, log=None, lookup=None, hook=None):
             x = np.asarray(x)
             k = counters[("nl", i)]
             counters[("nl", i)] += 1
+            if tuple(a) != tuple(N.get("args", ())) and i not in shared_targets and len(lg.args_mismatch) < 8:
+                lg.args_mismatch.append(("nl", i, list(a), list(N.get("args", ()))))
             if lookup is not None:
                 vals = lookup("nl", i, k, x)
             else:
@@ -625,8 +633,13 @@ def problems(draw, profile=None):
             L["ub_scalar"] = pct(30)
         lin.append(L)
     nl = []
-    for _ in range(draw(st.integers(min(P.get("min_nl", 0), P["max_nl"]), P["max_nl"]))):
-        form = draw(wsample(P["nl_forms"]))
+    # "dict family": two or three dict constraints, each with its own `args` (the conversion of dict
+    # constraints binds function and arguments per constraint; a mix-up needs several of them)
+    dictfam = P["max_nl"] >= 2 and pct(P.get("dict_family", 6))
+    n_nl = draw(st.integers(2, max(2, min(3, P["max_nl"])))) if dictfam else \
+        draw(st.integers(min(P.get("min_nl", 0), P["max_nl"]), P["max_nl"]))
+    for _ in range(n_nl):
+        form = "dict" if dictfam else draw(wsample(P["nl_forms"]))
         m = draw(wsample([(1, 5), (2, 3), (3, 1), (4, 1)]))
         comps = []
         for _ in range(m):
@@ -644,7 +657,7 @@ def problems(draw, profile=None):
             N["type"] = draw(wsample([("ineq", 3), ("eq", 1)]))
             # dict constraints mean fun >= 0 / fun == 0: shift each component by an `args` entry
             # so that the reference point is (in)feasible by a drawn slack
-            N["args"] = [draw(dy(-2, 2))] if pct(50) else []
+            N["args"] = [draw(dy(-2, 2))] if (dictfam or pct(50)) else []
         else:
             lo, hi = [], []
             for c in comps:
